@@ -345,6 +345,7 @@ def enumerate_cases(tier, seed):
     cases += s3.rebuilt_clash_cases("AMBER", opts=("default", "nodebump",
                                                    "nodebump_noopt"))
     cases += s3.asym_acid_cases()
+    cases += s3.tetra_partner_cases("AMBER")
     wfiles = (["1AJJ.pdb", "1BX8.pdb", "cterm_hid.pdb"] if tier == "quick"
               else None)
     cases += s3.window_cases("AMBER", wfiles)
